@@ -1096,6 +1096,17 @@ impl SequencerBlock {
         if !are_rollup_txs_included(&rollup_transactions, &rollup_transactions_proof, data_hash) {
             return Err(SequencerBlockError::rollup_transactions_not_in_sequencer_block());
         }
+        // The per-rollup proofs are handed on unchanged by `split_for_celestia` and
+        // `into_filtered_block`; a block must not be accepted if one of them does not lead to
+        // the rollup transactions root (the filtered block and the conductor check exactly this).
+        for rollup_txs in rollup_transactions.values() {
+            if !super::do_rollup_transactions_match_root(
+                rollup_txs,
+                header.rollup_transactions_root,
+            ) {
+                return Err(SequencerBlockError::rollup_transactions_not_in_sequencer_block());
+            }
+        }
         if !are_rollup_ids_included(rollup_transactions.keys(), &rollup_ids_proof, data_hash) {
             return Err(SequencerBlockError::invalid_rollup_ids_proof());
         }
